@@ -403,12 +403,25 @@ func (SyllableChordConverter) newScaleNote(v *ast.ChordDegree) (*op.ScaleNote, e
 	}
 	accidental := op.Natural
 	if x := v.Accidental; x != nil {
-		accidental = op.NewAccidental(x.Value())
+		accidental = op.NewAccidental(accidentalValue(x))
 	}
 	return &op.ScaleNote{
 		Name:       name,
 		Accidental: accidental,
 	}, nil
+}
+
+// accidentalValue returns the ASCII spelling of an accidental token:
+// the lexer accepts both # and ♯, b and ♭.
+func accidentalValue(t interface{ Value() string }) string {
+	switch x := t.Value(); x {
+	case "♯":
+		return "#"
+	case "♭":
+		return "b"
+	default:
+		return x
+	}
 }
 
 // DegreeChordConverter converts AST contains only degrees.
@@ -441,7 +454,7 @@ func (c DegreeChordConverter) Convert(v *ast.Chord) (*input.Chord, error) {
 func (DegreeChordConverter) convertDegree(v *ast.ChordDegree) (note.Degree, error) {
 	s := v.Degree.Value()
 	if x := v.Accidental; x != nil {
-		s += x.Value()
+		s += accidentalValue(x)
 	}
 	d, err := note.ParseDegree(s)
 	if err != nil {
